@@ -411,7 +411,8 @@ class Parser:
                 code_gen.add_instruction(OpCode.PUSHQ, value)
             else:
                 code_gen.push(value)
-        elif value is not dest:
+        elif move_inst is OpCode.MOVEQ or value is not dest:
+            # Only a move of a register or variable onto itself is omitted.
             code_gen.add_instruction(move_inst, value, dest)
 
         return self.next_token()
